@@ -186,12 +186,12 @@ Qed.
 Lemma cell_impl_local s t tr f :
   agree_upto GZ s t -> tr < T fb -> f < nf fb -> isact fb f = false -> cell_impl fb s tr f = cell_impl fb t tr f.
 Proof.
-  intros A Ht Hf Hn. destruct (implied_facts fb HF1 HT f Hf Hn) as (fd & w & Efd & Ew & Hd & _ & _ & W3 & _).
+  intros A Ht Hf Hn. destruct (implied_facts fb HF1 HT f Hf Hn) as (fd & w & Efd & Ew & Hd & _ & _ & _).
   unfold cell_impl, factor_at. rewrite Efd, Ew.
   destruct (applies (code_factor fb f fd) tr) eqn:Hap; [|reflexivity].
   replace (window_args (dec_act fb t) (code_factor fb f fd) (dwin fd w) tr)
     with (window_args (dec_act fb s) (code_factor fb f fd) (dwin fd w) tr); [reflexivity|].
-  apply (impl_window_ext fb HF1 HT _ _ f fd w tr (impl_sustain fb HF1 HT f Hf Hn) W3 Hap Ew). intros d t' Hdd Ht'.
+  apply (window_ext_su1 fb HF1 HT _ _ f fd w tr (impl_sustain fb HF1 HT f Hf Hn) Ew). intros d t' Hdd Ht'.
   pose proof (proj1 (Forall_forall _ _) Hd d Hdd) as Hds. cbv beta in Hds.
   destruct (sact_lappl fb HF1 d t' Hds) as [Hda _].
   rewrite !(dec_act_cell fb _ t' d ltac:(lia) (f1_act_lt fb HF1 d Hda)).
